@@ -16,7 +16,8 @@ RULE = ("for n <= N triggers: every phase assignment (before/during/after)^n x e
         "order and outcome (ok/failed) of firing the Deferreds returned by before-triggers [all enumerated completely]; "
         "combined with <= B removal/duplication decisions: remove trigger j before firing, from inside any running trigger "
         "(later, earlier-and-already-run before-trigger, or itself for before-triggers), or between two Deferred firings; "
-        "the unfired Deferred of a before-trigger is a DeferredList([d]) / an instance of a user subclass of Deferred; "
+        "the not-yet-completed Deferred of a before-trigger is a DeferredList([d]) / an instance of a user subclass of Deferred "
+        "/ already fired but chained to an unfired inner Deferred / already fired while pause()d by its owner; "
         "register trigger i as an identical duplicate (same callable, args, kwargs) of an earlier one; a running during/after "
         "trigger registers a new trigger for its own phase or a later phase; fire the event again while waiting. All triggers share one "
         "callable and differ by args or kwargs. non-trivial = distinct (phases, behaviours, removals, firing order) with a "
@@ -32,7 +33,7 @@ ASSUMPTIONS = [
     "nothing else runs on the reactor, so 'after every Deferred has fired' is checked as: no during/after trigger has run "
     "while a before-Deferred is unfired, and all of them have run by the time the last Deferred firing returns",
 ]
-MIN = {"quick": {"evaluations": 550000, "nontrivial": 550000, "outcomes": 18},
+MIN = {"quick": {"evaluations": 620000, "nontrivial": 620000, "outcomes": 20},
        "thorough": {"evaluations": 13600000, "nontrivial": 13600000, "outcomes": 19}}
 
 PHASES = ("before", "during", "after")
@@ -91,6 +92,22 @@ def sub_deferred_class():
             pass
         _SUB = UserDeferred
     return _SUB
+
+
+class Unpause:
+    """Stands for a Deferred that has a result but was pause()d by its owner; completing it = unpause()."""
+
+    def __init__(self, d):
+        self.d = d
+
+    def callback(self, r):
+        self.d.unpause()
+
+    def errback(self, e):
+        self.d.unpause()      # it already has its (successful) result
+
+    def addErrback(self, f):
+        pass
 
 
 class Reg:
@@ -205,6 +222,24 @@ class H:
             self.outstanding.append(d)
             self.flags.add("before-returned-" + r.kind)
             return defer.DeferredList([d]) if r.kind == "dlist" else d
+        if r.kind == "chained":
+            # already fired, but its chain is suspended on an unfired inner Deferred which the harness fires later
+            inner = defer.Deferred()
+            d = defer.succeed(None)
+            d.addCallback(lambda _, inner=inner: inner)
+            self.outstanding.append(inner)
+            self.consume = getattr(self, "consume", [])
+            self.consume.append(d)
+            self.flags.add("before-returned-chained")
+            return d
+        if r.kind == "pausedfired":
+            # fired while pause()d by its owner: "firing" it later means the owner unpauses it
+            d = defer.Deferred()
+            d.pause()
+            d.callback(None)
+            self.outstanding.append(Unpause(d))
+            self.flags.add("before-returned-pausedfired")
+            return d
         d = defer.Deferred()
         if r.phase == "before":
             self.outstanding.append(d)
@@ -244,8 +279,8 @@ class H:
                 r.token = i
                 r.kind = ch.pick(KINDS[ph], "kind-%d" % i, free=True)
                 if ph == "before" and r.kind == "defer":
-                    # (deviation) the unfired Deferred is an instance of a Deferred subclass
-                    r.kind = ("defer", "dlist", "subdefer")[ch.choose(3, "deferred-class-%d" % i)]
+                    # (deviation) the not-yet-completed Deferred is a Deferred subclass instance / fired but suspended
+                    r.kind = ("defer", "dlist", "subdefer", "chained", "pausedfired")[ch.choose(5, "deferred-class-%d" % i)]
             if r.token % 2:
                 r.handle = reactor.addSystemEventTrigger(ph, "custom", self.trig, token=r.token)
             else:
